@@ -214,10 +214,10 @@ def scenario(t, g, enc, rng, res, getter):
             y = pick_y(False)
             tt = rng.randint(y, H + 1)
             if rng.random() < 0.2:
-                got = list(t.traverse())
+                got = _drain(t.traverse(), "row", rng, out, getter, call, tags)
                 y, tt = 0, H - 1
             else:
-                got = list(t.traverse(start=y, end=tt))
+                got = _drain(t.traverse(start=y, end=tt), "row", rng, out, getter, call, tags)
             call.update(start=y, end=tt)
             tags += ["rowrun" if _in_run(enc.row_runs, y) else "", "start-last-of-run" if _last_of_run(enc.row_runs, y) else ""]
         else:
@@ -262,7 +262,7 @@ def scenario(t, g, enc, rng, res, getter):
             z = rng.randint(x, W + 1)
             tags += ["start-last-of-run" if _last_of_run(enc.cols, x) and x > 0 else "", "colrun" if _in_run(enc.cols, x) else ""]
             if getter == "traverse_columns":
-                got = list(t.traverse_columns(start=x, end=z))
+                got = _drain(t.traverse_columns(start=x, end=z), "column", rng, out, getter, call, tags)
                 call.update(start=x, end=z)
             else:
                 # column range over all rows: "B:D" or a 4-tuple whose row part differs from the column part
@@ -333,7 +333,7 @@ def scenario(t, g, enc, rng, res, getter):
             call.update(start=x, end=z)
             tags += ["start-last-of-run" if _last_of_run(enc.cells_of(y), x) and x > 0 else ""]
             if sub == "traverse":
-                got = list(row.traverse(start=x, end=z))
+                got = _drain(row.traverse(start=x, end=z), "cell", rng, out, getter, call, tags)
             else:
                 coord = (x, z) if rng.random() < 0.6 else f"{TL.alpha(x)}:{TL.alpha(z)}"
                 call["coord"] = coord
@@ -391,6 +391,35 @@ def scenario(t, g, enc, rng, res, getter):
     for m, d in out:
         d["call"] = call
     return out
+
+
+def _drain(it, kind, rng, out, getter, call, tags):
+    """Consume a generator of copies. Half of the time the way a caller editing on the fly does: each copy is edited
+    before the next one is asked for. What was handed out is kept as it was at that moment (a clone with the same
+    stamps); a copy that already carries the edit made to the copy before it is not a copy of the table."""
+    if rng.random() < 0.5:
+        return list(it)
+    tags.append("edited-while-iterating")
+    got = []
+    for o in it:
+        if "vf-mut" in o.serialize():
+            out.append((f"copy-inherits-the-edit-of-the-copy-before:{getter}", {"n": len(got), "xml": o.serialize()[:200], "call": call}))
+        keep = o.clone
+        if hasattr(o, "x"):
+            keep.x = o.x
+        if hasattr(o, "y"):
+            keep.y = o.y
+        got.append(keep)
+        try:
+            if kind == "cell":
+                o.set_value("vf-mut")
+            elif kind == "row":
+                o.set_value(0, "vf-mut")
+            else:
+                o.style = "vf-mut"
+        except Exception as e:
+            out.append((f"mutation-raised:{getter}:{kind}", {"exc": repr(e), "call": call}))
+    return got
 
 
 GETTERS = [
